@@ -393,12 +393,19 @@ func vkRunUDPCase(w *vkSrvWorld, net_ *vkUDPNet, tc vkUDPCase) (viol, herr, outc
 		if pmsg != "" {
 			return fmt.Sprintf("engine panicked at step %s: %s [%s]", opts[ch], pmsg, strings.Join(u.trace, " ")), "", "panic", u.npts
 		}
-		if h := net_.observe(); h != "" {
-			return "", h, "", nil
+		// only the flush steps can put datagrams on the wire; anything sent
+		// elsewhere is still seen (and judged) at the next observation
+		if strings.HasSuffix(opts[ch], "flush") {
+			if h := net_.observe(); h != "" {
+				return "", h, "", nil
+			}
+			if v := u.judge(false); v != "" {
+				return fmt.Sprintf("%s [after %s]", v, strings.Join(u.trace, " ")), "", "violation", u.npts
+			}
 		}
-		if v := u.judge(false); v != "" {
-			return fmt.Sprintf("%s [after %s]", v, strings.Join(u.trace, " ")), "", "violation", u.npts
-		}
+	}
+	if h := net_.observe(); h != "" {
+		return "", h, "", nil
 	}
 	if v := u.judge(true); v != "" {
 		return fmt.Sprintf("%s [%s]", v, strings.Join(u.trace, " ")), "", "violation", u.npts
@@ -420,8 +427,8 @@ func vkRunUDPCase(w *vkSrvWorld, net_ *vkUDPNet, tc vkUDPCase) (viol, herr, outc
 	for i := range e.cache.shards {
 		for _, j := range e.cache.shards[i].idle {
 			live++
-			if j.state != udpJobFree || j.txLen != 0 || j.written || j.replay || j.burst != nil {
-				return fmt.Sprintf("an idle slab is not clean: state=%d txLen=%d written=%v replay=%v", j.state, j.txLen, j.written, j.replay), "", "violation", u.npts
+			if j.state != udpJobFree || j.burst != nil {
+				return fmt.Sprintf("an idle slab is not free: state=%d burst=%v", j.state, j.burst != nil), "", "violation", u.npts
 			}
 		}
 	}
@@ -470,17 +477,17 @@ func (w *vkSrvWorld) warmUDP(n *vkUDPNet) string {
 }
 
 func vkUDPExplore(c *vkit.Ctx, unit string, minClients int) {
-	nClients, nDg := 2, 3
+	nClients := 2
 	caps := []int{1, 2}
-	kinds := []string{"hit", "miss", "malf", "qr", "notify"}
+	kinds := []string{"hit", "miss", "malf", "qr", "notify", "panic"}
+	core := []string{"hit", "miss", "qr", "malf"}
 	if c.Thorough() {
 		nClients = 3
-		kinds = append(kinds, "panic")
 		caps = []int{1, 2, 3}
 	}
 	newWorld := func() (*vkSrvWorld, *vkUDPNet, string) {
 		w := vkNewSrvWorld()
-		n, err := vkNewUDPNet(vkUDPTags[:3])
+		n, err := vkNewUDPNet(vkUDPTags[:nClients])
 		if err != nil {
 			return nil, nil, "cannot open loopback sockets: " + err.Error()
 		}
@@ -537,16 +544,18 @@ func vkUDPExplore(c *vkit.Ctx, unit string, minClients int) {
 			}
 		}
 	}
-	for d := 1; d <= nDg; d++ {
-		rec(nil, d)
-	}
+	rec(nil, 1)
+	rec(nil, 2)
+	all := kinds
 	if c.Thorough() {
-		// four datagrams over the core kinds
-		save := kinds
-		kinds = []string{"hit", "miss", "qr", "malf"}
+		rec(nil, 3)
+		kinds = core
 		rec(nil, 4)
-		kinds = save
+	} else {
+		kinds = core
+		rec(nil, 3)
 	}
+	kinds = all
 	stop := false
 	for si, dg := range seqs {
 		if !c.Mine(si) || stop {
